@@ -98,7 +98,11 @@ class ABCARMPropertyGraph(ABCPropertyGraph):
         :return:
         """
         if prop_val is None:
-            graph.unset_node_property(node_id=node_id, prop_name=prop_name)
+            # a node may carry only one kind of delegation (or none for this delegation id):
+            # there is nothing to remove then, and not every backend tolerates unsetting an absent property
+            _, node_props = graph.get_node_properties(node_id=node_id)
+            if node_props.get(prop_name, None) is not None:
+                graph.unset_node_property(node_id=node_id, prop_name=prop_name)
         else:
             graph.update_node_property(node_id=node_id, prop_name=prop_name,
                                        prop_val=prop_val.to_json())
